@@ -349,6 +349,13 @@ def main():
                 raise common.MachineryError("stress driver failed: " + se[-300:])
             if stress[name]["lost_stores"] > 0:
                 v.deviation("be:rmw-vs-store" if name == "be" else "le:rmw-vs-store", dict(stress[name], model_says_not_atomic=(m_be["rc"] != 0)))
+        # a translated module under real threads (memory defined or imported; one instance, an instance or a child per thread): atomic adds
+        # lose nothing while other threads grow the memory and wait on it
+        import sharedmod
+        smres, smprobs = sharedmod.run_all(wd, common.build_w2c2(os.path.join(wd, "smbin")), tier, "C16")
+        for what, det in smprobs:
+            v.deviation("module:%s" % what, det)
+        stress["module_level"] = {k_: {f_: r_[f_] for f_ in ("rounds",) + sharedmod.FIELDS["C16"]} for k_, r_ in smres.items()}
     finally:
         shutil.rmtree(wd, ignore_errors=True)
     cov = {"states": m_le["distinct"] + m_be["distinct"] + m_fix["distinct"] + st["states"] + tst["states"],
